@@ -82,10 +82,15 @@ type MapData struct {
 	ents []MapEntry
 }
 
+// ownerTok identifies the single state allowed to mutate an object in place.
+// Cloning a state gives BOTH copies fresh tokens, so objects shared between
+// them are copied on the next write by either.
+type ownerTok struct{ _ int }
+
 type Object struct {
 	typ   types.Type
 	val   Value
-	owner *State
+	owner *ownerTok
 	name  string
 }
 
@@ -113,6 +118,7 @@ type State struct {
 	initMode bool
 	threads  []*Thread
 	obs      []*Term
+	tok      *ownerTok
 	model    *Model
 	aux      []*Term
 	nfresh   int
@@ -123,6 +129,8 @@ type State struct {
 
 func (st *State) clone() *State {
 	n := &State{ex: st.ex, base: st.base, nextID: st.nextID, steps: st.steps, depth: st.depth}
+	st.tok = &ownerTok{}
+	n.tok = &ownerTok{}
 	n.heap = make(map[int]*Object, len(st.heap)+8)
 	for k, v := range st.heap {
 		n.heap[k] = v
@@ -163,11 +171,14 @@ func (st *State) obj(id int) *Object {
 
 func (st *State) mut(id int) *Object {
 	o := st.obj(id)
-	if o.owner == st {
+	if st.tok == nil {
+		st.tok = &ownerTok{}
+	}
+	if o.owner == st.tok {
 		return o
 	}
 	c := *o
-	c.owner = st
+	c.owner = st.tok
 	st.heap[id] = &c
 	return &c
 }
@@ -181,7 +192,10 @@ func (st *State) alloc(typ types.Type, val Value, name string) int {
 		st.nextID++
 		id = st.nextID
 	}
-	st.heap[id] = &Object{typ: typ, val: val, owner: st, name: name}
+	if st.tok == nil {
+		st.tok = &ownerTok{}
+	}
+	st.heap[id] = &Object{typ: typ, val: val, owner: st.tok, name: name}
 	return id
 }
 
